@@ -3,6 +3,7 @@ import numpy as np, operator
 from lib import common as C
 
 GEN = ['Containers']
+IMPORTS = ['C03/basis_product', 'C03/mul_den', 'C03/rs_matrix_den', 'C03/rmatmul_den', 'C03/add_den', 'C03/dense_add_den', 'C03/identity_den', 'C03/prune_thresholds']      # the entries' own algebra
 TRUSTED = ['isinstance relation between operand kinds and classes (Lib/OperandKinds.v: CPython/numpy class hierarchy)',
            'numpy @, +, slicing assignment; scipy lu_factor/lu_solve (FactoredJacobianDict is checked by the oracle against numpy.linalg.solve)']
 ASSUMPTIONS = ['correspondence runs the dict algorithms at T=1 (1x1 dense arrays, (0,0)-sparse entries, identity entries) against the scalar instance of the '
@@ -88,7 +89,7 @@ def gen_jd_T(rng, T, outs, ins, p=0.7):
                 if kind == 'sparse':
                     els = {}
                     for _ in range(rng.randint(1, 3)):
-                        els[(rng.randint(-2, 2), rng.choice([0, 0, 1]))] = rng.choice([-2, -1, 1, 2, 3])
+                        els[(rng.randint(-3, 3), rng.choice([0, 0, 1, 2, 3]))] = rng.choice([-2, -1, 1, 2, 3])
                     row.append([i, 'sparse', sorted([[k[0], k[1], v] for k, v in els.items()])])
                 elif kind == 'dense':
                     row.append([i, 'dense', [[rng.randint(-2, 2) for _ in range(T)] for _ in range(T)]])
@@ -244,8 +245,8 @@ def correspondence(ctx):
     casesT, exprsT, disT, statsT = correspondence_T(ctx, 64 if ctx['tier'] == 'quick' else 640)
     return dict(evaluations=len(cases) + len(exprsT), distinct_nontrivial=len(distinct) + len({C.canon(c) for c in casesT}),
                 rule='random name sets over 6 names (overlapping/disjoint middles), presence pattern 60%, entry kinds dense/sparse/identity at T=1 with '
-                     'integer values; compose and apply results (names, presence, values) vs the scalar instance of the model; second stream: horizons 2-5, entries absent / SimpleSparse with shifts within +-2 '
-                     '(some with missing initial rows) / dense integer arrays / IdentityMatrix: A @ B and A @ paths vs the executable model over the mixed sparse/dense algebra (Model/ContainersT.v), exact, operands untouched',
+                     'integer values; compose and apply results (names, presence, values) vs the scalar instance of the model; second stream: horizons 2-5, entries absent / SimpleSparse with shifts within +-3 '
+                     '(with 0-3 missing initial rows) / dense integer arrays / IdentityMatrix: A @ B and A @ paths vs the executable model over the mixed sparse/dense algebra (Model/ContainersT.v), exact, operands untouched',
                 samples=[cases[0], cases[1]], disagreements=dis + disT, stats=dict(stats, horizon_T=statsT))
 
 
